@@ -106,6 +106,8 @@ def apply_post(x, p):
     if t == 'hold':
         m = p['m']
         return np.repeat(x[::m], m)[:len(x)]
+    if t == 'sensor':                      # a DC-coupled sensor in SI units: tiny rhythm on a much larger (still tiny) baseline
+        return x * (10.0 ** p['e']) + p['level']
     if t == 'dc':
         return x + p['offset']
     if t == 'scale':
@@ -247,7 +249,10 @@ def st_component(draw, band, n):
 
 @st.composite
 def st_post(draw):
-    t = draw(st.sampled_from(['quantise', 'intquant', 'clip', 'zero', 'hold', 'dc', 'scale', 'scale', 'negate', 'taper']))
+    t = draw(st.sampled_from(['quantise', 'intquant', 'clip', 'zero', 'hold', 'dc', 'scale', 'scale', 'negate', 'taper', 'sensor']))
+    if t == 'sensor':
+        e = draw(st.sampled_from([-13, -12, -9, -6, 3]))
+        return {'type': t, 'e': e, 'level': draw(st.sampled_from([60.0, -250.0, 3000.0])) * 10.0 ** e * draw(st.sampled_from([10.0, 1000.0]))}
     if t == 'taper':
         return {'type': t, 'frac': draw(st.sampled_from([0.2, 0.5, 1.0]))}
     if t == 'quantise':
@@ -337,7 +342,7 @@ def st_amp_settings(draw, band):
     if routing in ('burst', 'both'):
         bk['min_n_cycles'] = draw(st.integers(0, 5))
     if draw(st.integers(0, 7)) == 0:
-        bk['min_burst_duration'] = draw(_f(0.5, 4.0)) / band['f_range'][0]
+        bk['min_burst_duration'] = draw(st.one_of(_f(0.5, 4.0), _f(0.5, 4.0), st.sampled_from([0.0, 0.0, 1.0]))) / band['f_range'][0]      # 0 s: "no minimum length", explicitly
     if draw(st.integers(0, 3)) == 0:
         # forwarded to the dual-threshold detector: filter length, but also its other documented keywords
         bk['filter_kwargs'] = draw(st.sampled_from([{'n_cycles': 2}, {'n_cycles': 3}, {'n_cycles': 4}, {'n_cycles': 4}, {'magnitude_type': 'power'},
